@@ -146,9 +146,15 @@ def rule_bool_is_not_a_number(ctx, rep, rid: str) -> None:
         if f.module.name not in ("vm", "values", "context"):
             continue
         for r in f.own_nodes():
-            if not (isinstance(r, ast.Return) and isinstance(r.value, ast.Name)):
+            if not isinstance(r, ast.Return):
                 continue
-            v = r.value.id
+            rv = r.value
+            # `return v` or `return normalise(v)` (a number normaliser hands an in-range value back unchanged)
+            if isinstance(rv, ast.Call) and isinstance(rv.func, ast.Name) and rv.func.id in _normalisers(ctx) and len(rv.args) == 1:
+                rv = rv.args[0]
+            if not isinstance(rv, ast.Name):
+                continue
+            v = rv.id
             g = guards_of(r, f.node)
             ats = [(norm(a), p) for t, pol in g for a, p in atoms(t, pol)]
             num_test = [a for a, p in ats if p and a.startswith(f"isinstance({v}, ") and ("int" in a.split(",", 1)[1]) and "bool" not in a]
@@ -271,3 +277,129 @@ def rule_host_truthiness(ctx, rep, rid: str) -> None:
             rep.bad(rid, key, f"the {'/'.join(names)} handler does not decide through to_boolean ({why})", f"{df.module.rel}:{line}")
     if n_h < 2:
         raise AnalysisError("conditional-jump handlers not found in the dispatcher")
+
+
+# ---- whole numbers held as host ints stay within the exactly representable range ----------------------
+def _normalisers(ctx) -> set:
+    """Functions that round an int beyond 2**53 to a float: body tests isinstance(x, int), mentions 2**53 and
+    returns float(x).  Found by shape."""
+    cached = ctx.__dict__.get("_number_normalisers")
+    if cached is not None:
+        return cached
+    out = set()
+    for f in ctx.tree.funcs:
+        if isinstance(f.node, ast.Lambda) or len(f.params()) != 1:
+            continue
+        txt = " ; ".join(norm(s) for s in f.body()).replace(" ", "")
+        p = f.params()[0]
+        if f"isinstance({p},int)" in txt and "2**53" in txt and f"float({p})" in txt:
+            out.add(f.name)
+    ctx.__dict__["_number_normalisers"] = out
+    return out
+
+
+def rule_int_results_normalised(ctx, rep, rid: str) -> None:
+    """The engine keeps whole Numbers as Python ints.  An int has unlimited precision, a double 53 bits: every
+    place where host integer arithmetic or int(text) can produce a whole number beyond 2**53 has to round it to a
+    double, or results depend on the representation (2**53 + 1 != 2**53, (2**53 + 1) % 2 == 1)."""
+    rep.rule(rid, "host integer results that become script Numbers (+, -, ++, -- of ints; numeric literals; ToNumber of digit strings) pass through the normaliser that rounds an int beyond 2**53 to a double, or are computed in floats: a Number never depends on being held as an int or a float", floor=6)
+    norms = _normalisers(ctx)
+    if not norms:
+        rep.bad(rid, "normaliser", "no function rounds an out-of-range int to a double (isinstance(x, int) ... 2**53 ... float(x)): whole numbers beyond 2**53 keep digits a double does not have", ctx.tree.mod("values").rel + ":1")
+    else:
+        rep.ok(rid, "normaliser", {"functions": sorted(norms)})
+
+    def wrapped(e: ast.AST) -> bool:
+        return isinstance(e, ast.Call) and isinstance(e.func, ast.Name) and e.func.id in norms
+
+    def floaty(e: ast.AST, f) -> bool:
+        """e is computed in floats: a float() call, a float literal, math.*, division, or a local bound to one."""
+        if isinstance(e, ast.Call) and norm(e.func) in ("float", "math.fmod", "js_pow") :
+            return True
+        if isinstance(e, ast.Call) and norm(e.func).startswith("math."):
+            return True
+        if isinstance(e, ast.Constant) and isinstance(e.value, float):
+            return True
+        if isinstance(e, ast.BinOp) and isinstance(e.op, ast.Div):
+            return True
+        if isinstance(e, ast.BinOp):
+            return floaty(e.left, f) or floaty(e.right, f)
+        if isinstance(e, ast.UnaryOp):
+            return floaty(e.operand, f)
+        if isinstance(e, ast.Name):
+            defs = [n.value for n in f.own_nodes() if isinstance(n, ast.Assign) and any(isinstance(t, ast.Name) and t.id == e.id for t in n.targets)]
+            return bool(defs) and all(floaty(d, f) for d in defs)
+        return False
+
+    def int_arith(e: ast.AST) -> bool:
+        """host +, -, * directly on ToNumber results / numeric locals (may be ints of any size)"""
+        return isinstance(e, ast.BinOp) and isinstance(e.op, (ast.Add, ast.Sub, ast.Mult)) and any(isinstance(x, ast.Call) and norm(x.func).endswith("to_number") for x in ast.walk(e))
+
+    df, chain = ctx.facts.vm_dispatcher()
+    n = 0
+    for names, body, ifnode in chain.branches:
+        if not any(x in ("ADD", "SUB", "MUL", "INC", "DEC") for x in names):
+            continue
+        for s_ in body:
+            for c in ast.walk(s_):
+                if isinstance(c, ast.Call) and norm(c.func) == "self.stack.append" and c.args:
+                    v = c.args[0]
+                    n += 1
+                    key = f"{df.qual}:{'/'.join(names)}:push({short(v, 30)})"
+                    if wrapped(v) or floaty(v, df):
+                        rep.ok(rid, key)
+                    elif isinstance(v, ast.Call) and isinstance(v.func, ast.Attribute) and norm(v.func.value) == "self":
+                        h = ctx.tree.find_method(df.cls, v.func.attr)
+                        rets = [r.value for r in (h.own_nodes() if h else []) if isinstance(r, ast.Return) and r.value is not None]
+                        badr = [r for r in rets if int_arith(r) and not wrapped(r)]
+                        if h is not None and not badr:
+                            rep.ok(rid, key, {"via": h.name})
+                        else:
+                            rep.bad(rid, key, f"{h.qual if h else norm(v.func)} returns the host result `{short(badr[0], 40) if badr else '?'}` as a Number: for int operands it is an int of unlimited precision (9007199254740992 + 1 == 9007199254740993)", f"{df.module.rel}:{badr[0].lineno if badr else c.lineno}")
+                    elif int_arith(v):
+                        rep.bad(rid, key, f"the {'/'.join(names)} handler pushes the host result `{short(v, 40)}`: for int operands it is an int of unlimited precision, so whole numbers beyond 2**53 differ from the doubles they should be", f"{df.module.rel}:{c.lineno}")
+                    else:
+                        rep.ok(rid, key, {"note": "not host integer arithmetic"})
+    # negating an int that may be zero loses the sign of zero (-0 is a float)
+    for names, body, ifnode in chain.branches:
+        if not any(x in ("MOD", "NEG", "MUL", "DIV") for x in names):
+            continue
+        for s_ in body:
+            for u in ast.walk(s_):
+                if isinstance(u, ast.UnaryOp) and isinstance(u.op, ast.USub) and isinstance(u.operand, ast.Name):
+                    v = u.operand.id
+                    defs = [d.value for d in df.own_nodes() if isinstance(d, ast.Assign) and any(isinstance(t, ast.Name) and t.id == v for t in d.targets) and ifnode.lineno <= d.lineno <= (ifnode.end_lineno or d.lineno)]
+                    if not any(isinstance(d, ast.BinOp) and isinstance(d.op, ast.Mod) for d in defs):
+                        continue
+                    n += 1
+                    key = f"{df.qual}:{'/'.join(names)}:-{v}"
+                    p_ = getattr(u, "_parent", None)
+                    zero_tested = (isinstance(p_, ast.IfExp) and norm(p_.test) in (v, f"{v} != 0", f"{v} > 0")) or any(pol and norm(t) in (v, f"{v} != 0", f"{v} > 0") for t, pol in guards_of(u, df.node))
+                    if zero_tested:
+                        rep.ok(rid, key)
+                    else:
+                        rep.bad(rid, key, f"the {'/'.join(names)} handler negates the integer remainder `{v}` without treating zero separately: -0 of an int is 0, so -5 % 5 is +0 and 1 / (-5 % 5) is Infinity instead of -Infinity", f"{df.module.rel}:{u.lineno}")
+    # int(text) that becomes a Number: numeric literals (lexer) and ToNumber
+    for f in ctx.tree.funcs:
+        if isinstance(f.node, ast.Lambda):
+            continue
+        if not ((f.module.name == "lexer" and "number" in f.name.lower()) or (f.module.name == "values" and f.name == "to_number")):
+            continue
+        for r in f.own_nodes():
+            if isinstance(r, ast.Return) and r.value is not None:
+                ints = [x for x in ast.walk(r.value) if isinstance(x, ast.Call) and isinstance(x.func, ast.Name) and x.func.id == "int"]
+                if not ints:
+                    continue
+                n += 1
+                key = f"{f.qual}:return {short(r.value, 30)}"
+                if wrapped(r.value):
+                    rep.ok(rid, key)
+                else:
+                    rep.bad(rid, key, f"{f.qual} returns {short(r.value, 40)}: int() of a long digit string keeps every digit, so 9007199254740993 and 9007199254740992 are different Numbers", f"{f.module.rel}:{r.lineno}")
+        if f.module.name == "values" and f.name == "to_number":
+            # an int handed in (literal, embedder value) is normalised too
+            for r in f.own_nodes():
+                if isinstance(r, ast.Return) and isinstance(r.value, ast.Name) and any(pol and "isinstance" in norm(t) and "int" in norm(t) for t, pol in guards_of(r, f.node)):
+                    n += 1
+                    rep.bad(rid, f"{f.qual}:return {r.value.id}", f"to_number returns an int operand as it is: an embedder value or constant beyond 2**53 enters arithmetic with more digits than a double", f"{f.module.rel}:{r.lineno}")
+    rep.analysed["int_result_sites"] = n
